@@ -8,7 +8,7 @@ import asyncgen
 import vlib
 
 PID = "C13"
-THEOREMS = []
+THEOREMS = ['C13_is_loading_iff_pending', 'C13_is_loading_chain', 'C13_report_depends_on_pending_set']
 
 
 def trees(rng, tier):
@@ -82,7 +82,7 @@ def oracle(prog, steps, lines):
 
 def main(argv):
     a, seed = vlib.args(argv)
-    chk = vlib.Check(PID, a.tier, seed, "other")
+    chk = vlib.Check(PID, a.tier, seed, "proof")
     rng = random.Random(seed * 7937 + 13)
     chk.trusted = ["Coq 8.16.1 kernel + vm_compute", "hand-written LTS coq/theories/Async/Suspense.v tied to sycamore-futures by this correspondence run",
                    "harness/futures-driver (explicit schedules on a current-thread tokio runtime + LocalSet)", "tools/asyncgen.py, tools/c13.py",
@@ -92,12 +92,8 @@ def main(argv):
                 "ALL orders in which the awaits complete when there are <= 5 of them (sampled to 40 per tree in quick); is_loading of every "
                 "boundary (both scope.is_loading() and use_is_loading()) after every step; non-trivial = a schedule during which some boundary "
                 "was loading only because of an enclosing boundary; distinct = distinct (tree, schedule)")
-    broken = []
-    ok, out = vlib.coq_make(["theories/Async/Suspense.vo"])
-    chk.checker_cmd = "make -C coq theories/Async/Suspense.vo"
-    chk.obligation("coq build theories/Async/Suspense.vo", ok, out)
-    if not ok:
-        broken.append("model does not compile")
+    ok, msg = vlib.proof_step(chk, "C13", ["theories/Props/C13.vo"], THEOREMS)
+    broken = [] if ok else ["theorem: " + msg]
     okb, outb, binp = vlib.cargo_build("futures-driver")
     chk.obligation("cargo build futures-driver against /repo", okb, outb)
     if not okb:
@@ -113,12 +109,12 @@ def main(argv):
         chk.violation({"property": PID, "broken": "driver run", "detail": str(e)}, no_input=True)
         return chk.finish()
     model = None
-    if not broken:
-        try:
-            model = asyncgen.run_model(PID, cases)
-        except RuntimeError as e:
-            broken.append("model evaluation: " + str(e)[-500:])
-            chk.obligation("model evaluation", False, str(e))
+    vlib.coq_make(["theories/Async/Suspense.vo"])
+    try:
+        model = asyncgen.run_model(PID, cases)
+    except RuntimeError as e:
+        broken.append("model evaluation: " + str(e)[-500:])
+        chk.obligation("model evaluation", False, str(e))
     mism, orfail = [], []
     for i, ((prog, steps), lines) in enumerate(zip(cases, impl)):
         key = asyncgen.sx_nodes(prog) + asyncgen.sx_steps(steps)
